@@ -161,6 +161,9 @@ def execute(plan):
         ng = a.counts["jac"] if callable_jac else a.counts["approx_derivative"]
         if int(res.nfev) != a._n0 + nf:
             add("nfev_not_conserved", {"where": "result", "segment": si, "nfev": int(res.nfev), "checkpoint_nfev": a._n0, "calls_since": nf})
+        if not callable_jac and not (a._g0 <= int(res.njev) <= a._g0 + nf):
+            # finite differences: every gradient computation costs at least one objective call
+            add("njev_not_conserved", {"where": "result (finite differences)", "segment": si, "njev": int(res.njev), "checkpoint_njev": a._g0, "objective_calls_since": nf})
         if callable_jac and int(res.njev) != a._g0 + ng:
             add("njev_not_conserved", {"where": "result", "segment": si, "njev": int(res.njev), "checkpoint_njev": a._g0, "calls_since": ng})
         stats["or.conservation"] += 1
